@@ -84,6 +84,25 @@ func c01Forgeries(r *core.Run, w *world.World) []c01Forgery {
 		q.SignQE(foreign2)
 		out = append(out, c01Forgery{name: "rogue-attester-own-keys-genuine-chain", q: q})
 	}
+	// --- the same rogue attester carrying a twin of the genuine leaf: same names, same serial, same extensions,
+	// its own key, "issued" with a key that is not the CA's.  Self-consistent from the twin downwards; the QE
+	// report is not signed by the key of a leaf the CA certified (through a long-lived options value this comes
+	// right after the genuine quote, whose leaf has that very issuer and serial)
+	{
+		q := base()
+		twin := world.Issue(p.PCKSp, foreign2, w.CA, foreign)
+		q.Chain = world.ChainPEM(twin, w.CA, w.RootInQuote, false)
+		copy(q.AK[:], foreign.Pub64())
+		q.BindAK()
+		q.SignBody(foreign)
+		q.SignQE(foreign2)
+		out = append(out, c01Forgery{name: "rogue-attester-with-twin-of-the-genuine-leaf", q: q})
+		// and the genuine quote with nothing but its leaf exchanged for the twin: the QE report is then not signed by
+		// the key of the leaf certificate the quote carries
+		q2 := base()
+		q2.Chain = world.ChainPEM(twin, w.CA, w.RootInQuote, false)
+		out = append(out, c01Forgery{name: "genuine-quote-carrying-twin-of-its-leaf", q: q2})
+	}
 	// --- attestation key edge values (body signature left as is and also re-signed where possible)
 	edgeKeys := map[string][]byte{
 		"ak-zero":     make([]byte, 64),
